@@ -7,6 +7,7 @@ from t4_geom_convert.Kernel.FileHandlers.Parser.ParseMCNPCell import ParseMCNPCe
 from MIP.mip import cellcard
 
 from pyvc.contract import contract
+from pyvc.sym import And
 from contracts.c12 import _bare_parser
 
 BASE_OPTS = [
@@ -233,15 +234,49 @@ _KW_ITEMS = ('imp:n', 'imp:p', 'u', 'rho', 'mat', 'fill', '*fill', 'lat', 'trcl'
 _KW_IMP = ('imp:n', 'imp:p', '|', 'u')
 
 
-def _kw_sequences(tier):
+def _kw_sequences(tier, which):
     n_all, n_imp = (3, 5) if tier != 'thorough' else (4, 6)
-    seen = set()
-    for alphabet, n in ((_KW_ITEMS, n_all), (_KW_IMP, n_imp)):
-        for k in range(0, n + 1):
-            for seq in itertools.product(alphabet, repeat=k):
-                if seq not in seen:
-                    seen.add(seq)
-                    yield seq
+    alphabet, n = (_KW_ITEMS, n_all) if which == 'all' else (_KW_IMP, n_imp)
+    for k in range(0, n + 1):
+        for seq in itertools.product(alphabet, repeat=k):
+            if which == 'all' and k and set(seq) <= set(_KW_IMP):
+                continue                        # left to the contract with a native replay below
+            yield seq
+
+
+def _kw_spec(res, seq, imps):
+    """The reading of an option list that the property states (later keyword wins; importance: see _Keywords)."""
+    last = {}
+    for i, item in enumerate(seq):
+        last[item.lstrip('*')] = i
+    yield 'universe:last-occurrence', res.get('u') == ((100 + last['u']) if 'u' in last else None)
+    yield 'density:last-occurrence', res.get('density') == (f'rho{last["rho"]}' if 'rho' in last else None)
+    yield 'material:last-occurrence', res.get('material') == (f'mat{last["mat"]}' if 'mat' in last else None)
+    yield 'lattice:last-occurrence', res.get('lattice') == (('lat', f'lat{last["lat"]}') if 'lat' in last else None)
+    if 'trcl' in last:
+        i = last['trcl']
+        yield 'trcl:last-occurrence', res.get('trcl') == ('trcl', seq[i], f'trcl{i}')
+    else:
+        yield 'trcl:last-occurrence', res.get('trcl') is None
+    if 'fill' in last:
+        i = last['fill']
+        yield 'fill:last-occurrence', (res.get('f_bounds'), res.get('f_univs'), res.get('f_params')) == \
+            (('fb', seq[i], f'fill{i}'), ('fu', seq[i], f'fill{i}'), ('fp', seq[i], f'fill{i}'))
+    else:
+        yield 'fill:last-occurrence', (res.get('f_bounds'), res.get('f_univs'), res.get('f_params')) == (None, None, None)
+    # importance: card levels are separated by the marker; the last level with an importance decides
+    levels = [[]]
+    for i, item in enumerate(seq):
+        if item == '|':
+            levels.append([])
+        elif item.startswith('imp'):
+            levels[-1].append(imps[i])
+    levels = [l for l in levels if l]
+    if not levels:
+        yield 'importance:none-given', res.get('importance') is None
+    else:
+        from contracts.c12 import _max
+        yield 'importance:maximum-over-particle-types-of-the-last-level', res.get('importance') == _max(levels[-1])
 
 
 @contract(ParseMCNPCell.parse_keywords, props=['C15', 'C12', 'C09', 'C05'], name='ParseMCNPCell.parse_keywords[sequences]')
@@ -256,44 +291,34 @@ class _Keywords:
 
     def cases(S):
         import os
-        for seq in _kw_sequences(os.environ.get('VERIF_TIER', 'quick')):
-            yield ','.join(seq) or 'empty', {'seq': seq, 'S_': S}
+        for seq in _kw_sequences(os.environ.get('VERIF_TIER', 'quick'), 'all'):
+            yield ','.join(seq) or 'empty', {'seq': seq, 'imps': {i: S.real(f'imp{i}') for i, item in enumerate(seq)
+                                                                if item.startswith('imp')}}
 
     raises = {}
 
-    def ensures(result, seq, S_, calls):
-        res, imps = result
-        last = {}
-        for i, item in enumerate(seq):
-            last[item.lstrip('*')] = i
-        yield 'universe:last-occurrence', res.get('u') == ((100 + last['u']) if 'u' in last else None)
-        yield 'density:last-occurrence', res.get('density') == (f'rho{last["rho"]}' if 'rho' in last else None)
-        yield 'material:last-occurrence', res.get('material') == (f'mat{last["mat"]}' if 'mat' in last else None)
-        yield 'lattice:last-occurrence', res.get('lattice') == (('lat', f'lat{last["lat"]}') if 'lat' in last else None)
-        if 'trcl' in last:
-            i = last['trcl']
-            yield 'trcl:last-occurrence', res.get('trcl') == ('trcl', seq[i], f'trcl{i}')
-        else:
-            yield 'trcl:last-occurrence', res.get('trcl') is None
-        if 'fill' in last:
-            i = last['fill']
-            yield 'fill:last-occurrence', (res.get('f_bounds'), res.get('f_univs'), res.get('f_params')) == \
-                (('fb', seq[i], f'fill{i}'), ('fu', seq[i], f'fill{i}'), ('fp', seq[i], f'fill{i}'))
-        else:
-            yield 'fill:last-occurrence', (res.get('f_bounds'), res.get('f_univs'), res.get('f_params')) == (None, None, None)
-        # importance: card levels are separated by the marker; the last level with an importance decides
-        levels = [[]]
-        for i, item in enumerate(seq):
-            if item == '|':
-                levels.append([])
-            elif item.startswith('imp'):
-                levels[-1].append(imps[i])
-        levels = [l for l in levels if l]
-        if not levels:
-            yield 'importance:none-given', res.get('importance') is None
-        else:
-            from contracts.c12 import _max
-            yield 'importance:maximum-over-particle-types-of-the-last-level', res.get('importance') == _max(levels[-1])
+    def ensures(result, seq, imps, calls):
+        yield from _kw_spec(result, seq, imps)
+
+
+@contract(ParseMCNPCell.parse_keywords, props=['C15', 'C12', 'C09'], name='ParseMCNPCell.parse_keywords[importance]')
+class _KeywordsImp:
+    """The same reading for longer option lists over IMP:N, IMP:P, U and the BUT marker (every sequence of up to 5;
+    6 in the thorough tier), all importance values symbolic.  No callee is replaced except `to_float`, and only under
+    the interpreter: a counter-model is replayed on the real function with the numbers spelled out."""
+    def cases(S):
+        import os
+        for seq in _kw_sequences(os.environ.get('VERIF_TIER', 'quick'), 'imp'):
+            yield ','.join(seq) or 'empty', {'seq': seq, 'imps': {i: S.real(f'imp{i}') for i, item in enumerate(seq)
+                                                                if item.startswith('imp')}}
+
+    def requires(seq, imps):
+        return And(*[v >= 0 for v in imps.values()]) if imps else True
+
+    raises = {}
+
+    def ensures(result, seq, imps):
+        yield from _kw_spec(result, seq, imps)
 
 
 def _install_kw_hooks():
@@ -315,26 +340,31 @@ def _install_kw_hooks():
         elt, kw_list = args[-2], args[-1]
         return ('trcl', elt, kw_list.pop())
 
-    def call(seq, S_):
-        tokens, imps, values = [], {}, {}
+    def call(seq, imps):
+        from pyvc.sym import is_sym
+        tokens, values = [], {}
         for i, item in enumerate(seq):
             tokens.append(item)
             if item == '|':
                 continue
             if item.startswith('imp'):
-                imps[i] = S_.real(f'imp{i}')
-                values[f'imp{i}'] = imps[i]
-                tokens.append(f'imp{i}')
+                if is_sym(imps[i]):
+                    values[f'imp{i}'] = imps[i]
+                    tokens.append(f'imp{i}')
+                else:
+                    tokens.append(repr(float(imps[i])))          # native replay: the number spelled out
             elif item == 'u':
                 tokens.append(str(100 + i))
             else:
                 tokens.append(f'{item.lstrip("*")}{i}')
         state['values'] = values
         p = _bare_parser()
-        return p.parse_keywords(list(reversed(tokens))), imps
+        return p.parse_keywords(list(reversed(tokens)))
     _Keywords.hooks = {PMC.to_float: to_float, ParseMCNPCell.parse_fill_kw: fill, ParseMCNPCell.parse_lat_kw: lat,
                        ParseMCNPCell.parse_trcl_kw: trcl}
     _Keywords.call = staticmethod(call)
+    _KeywordsImp.hooks = {PMC.to_float: to_float}
+    _KeywordsImp.call = staticmethod(call)
 
 
 _install_kw_hooks()
